@@ -17,7 +17,7 @@ LEVEL_TEXT = ('all combinations of link target kind, absolute/relative target te
               'must have moved the link itself (same readlink) and restore must recreate it')
 LEVEL_NOTE = 'trusted: CPython/shutil, tmpfs, shim mount rules; the own mtime of a symlink is not compared (shutil.move recreates links)'
 RULE = ('product of target kind (file, dir, nothing, link->file, link->dir, other-volume file, other-volume dir, mount point, the working directory of the process, its parent) x target text '
-        '(abs, rel) x slashes (0-3) x reach (direct, via linked parent) x placement (home volume, other volume, other volume with blocked trash dirs + home fallback = cross-device move); plus one run naming {target then link, link then target, two links to the same target}; a same-named regular file is trashed before the link is restored; non-trivial = '
+        '(abs, rel) x slashes (0-3) x reach (direct, via linked parent) x placement (home volume, other volume, other volume with blocked trash dirs + home fallback = cross-device move); plus one run naming {target then link, link then target, two links to the same target}; the link restored plainly and with --overwrite over a regular file; a same-named regular file is trashed before the link is restored; non-trivial = '
         'the argument passed the existence screening; distinct = outcome class x all dimensions')
 TARGETS = ['file', 'dir', 'nothing', 'chain-file', 'chain-dir', 'xvol-file', 'xvol-dir', 'mount-point', 'cwd', 'ancestor']
 FORMS = ['abs', 'rel']
@@ -37,6 +37,9 @@ def cases(tier):
                 for fm in FORMS:
                     for t in TARGETS:
                         out.append({'target': t, 'form': fm, 'slashes': sl, 'reach': rc, 'place': pl})
+                        if sl == 0 and rc == 'direct':
+                            # ... and brought back with --overwrite over a regular file that took its place meanwhile
+                            out.append({'target': t, 'form': fm, 'slashes': sl, 'reach': rc, 'place': pl, 'ow': 1})
         # one invocation names the target first and then the link (and the other way round): both are entries of their own
         for fm in FORMS:
             for t in ('file', 'dir', 'chain-file'):
@@ -95,10 +98,13 @@ def run_case(c):
             with open(sb.root + B + '/elsewhere/lnk', 'w') as f:
                 f.write('same name, regular file\n')
             r1 = sb.run(['trash-put'] + putopts + ['elsewhere/lnk'], cwd=B, now='2024-03-04T03:03:03', env=putenv)
-            r2 = sb.run(['trash-restore', '--sort', 'date', '/'], stdin='0\n', cwd='/')
+            if c.get('ow'):
+                with open(sb.root + E, 'w') as f:
+                    f.write('a regular file took the place of the link\n')
+            r2 = sb.run(['trash-restore', '--sort', 'date'] + (['--overwrite'] if c.get('ow') else []) + ['/'], stdin='0\n', cwd='/')
             fin = sb.snapshot()
     detail = {'arg': arg, 'link_text': text, 'exit': r.exit, 'err': r.err[-300:], 'state': cl['state'], 'why': cl['why']}
-    dims = '|'.join('%s=%s' % (k, c[k]) for k in ('target', 'form', 'slashes', 'reach', 'place'))
+    dims = '|'.join('%s=%s' % (k, c[k]) for k in ('target', 'form', 'slashes', 'reach', 'place')) + ('|restore--overwrite' if c.get('ow') else '')
     tgt_paths = [B + '/real/tfile', B + '/real/tdir', '/mnt/v2/t', B + '/real/mid-file', B + '/real/mid-dir', '/home/u/tgt', '/outside']
     changed = [p for p in tgt_paths if world.under(orig, p) != world.under(mid, p)]
     dir_like = t in ('dir', 'chain-dir', 'xvol-dir', 'mount-point', 'cwd', 'ancestor')
@@ -125,7 +131,7 @@ def run_case(c):
     pair_gone = scen.info_of(fin, td, nm) is None and not world.under(fin, '%s/files/%s' % (td, nm))
     detail['restore'] = {'exit': r2.exit, 'err': r2.err[-200:], 'out': r2.out[-200:]}
     if not (back and pair_gone and r2.exit == 0):
-        return {'verdict': 'viol', 'sig': 'C18|restore-did-not-recreate-link|' + blame, 'klass': 'restore-failed', 'nontrivial': nt,
+        return {'verdict': 'viol', 'sig': 'C18|restore-did-not-recreate-link|' + blame + ('|--overwrite' if c.get('ow') else ''), 'klass': 'restore-failed', 'nontrivial': nt,
                 'detail': detail}
     changed = [p for p in tgt_paths if world.under(orig, p) != world.under(fin, p)]
     if changed:
